@@ -27,9 +27,19 @@ func jlsStInts(st lossless.VerifRunState) []int {
 
 func jlsRunSegments(c *hx.Ctx, n int) {
 	r := c.R
-	for round := 0; round < n; round++ {
+	// rounds n .. n+long-1: LONG runs (added after seeded change C08-m8) — the run index 20..31 with a run of exactly
+	// 2^J[RunIndex] or one more sample, one component: the only way to see incRunIndex at the end of the J table
+	long := 24
+	if c.Thorough() {
+		long = 96
+	}
+	for round := 0; round < n+long; round++ {
+		isLong := round >= n
 		mode := r.Intn(2)
 		comps := r.Pick([]int{1, 3})
+		if isLong {
+			comps = 1
+		}
 		p, near := jlsPN(r)
 		if round%3 == 0 {
 			p = r.Pick([]int{2, 3, 4, 8})
@@ -44,6 +54,9 @@ func jlsRunSegments(c *hx.Ctx, n int) {
 		}
 		t := lossless.NewTraits(mv, near, 64)
 		st := lossless.VerifRunState{RunIndex: round % 32}
+		if isLong {
+			st.RunIndex = 20 + (round-n)%12
+		}
 		for i := 0; i < 2; i++ {
 			nn := r.Pick([]int{1, 2, 32, 63, 64, r.Range(1, 64)})
 			st.Ctx[i] = [3]int{r.Pick([]int{max(2, (t.Range+32)/64), 2, 5, 40, r.Intn(4000) + 2}), nn, r.Intn(nn + 1)}
@@ -56,6 +69,10 @@ func jlsRunSegments(c *hx.Ctx, n int) {
 		}
 		if rl > 3000 {
 			rl = 3000
+		}
+		if isLong {
+			rl = (1 << uint(jv)) + ((round-n)/12)%2
+			c.Count(fmt.Sprintf("runseg:long-run@J=%d", jv))
 		}
 		x := r.Pick([]int{0, 0, 1, r.Range(1, 5)})
 		eol := r.Intn(4) == 0
